@@ -24,6 +24,18 @@ use std::cell::UnsafeCell;
 use std::sync::atomic::{AtomicUsize, Ordering};
 use std::sync::Arc;
 
+/// never reuse an address: the virtual ThreadPark token of the harness is keyed by address, and the trace normaliser
+/// numbers objects by address (see s_rwlock.rs: a recycled ThreadPark inherited a pending virtual token once)
+struct Leak;
+unsafe impl std::alloc::GlobalAlloc for Leak {
+    unsafe fn alloc(&self, l: std::alloc::Layout) -> *mut u8 {
+        std::alloc::System.alloc(l)
+    }
+    unsafe fn dealloc(&self, _p: *mut u8, _l: std::alloc::Layout) {}
+}
+#[global_allocator]
+static GLOBAL: Leak = Leak;
+
 fn envn(k: &str, d: usize) -> usize {
     std::env::var(k).ok().and_then(|s| s.parse().ok()).unwrap_or(d)
 }
